@@ -361,3 +361,25 @@ Theorem C18_stale_routing_cache_refuted :
   exists p ops, hc_run p None ops <> map (fun q => wire_data q) (h_states p ops).
 Proof. exact stale_cache_refuted. Qed.
 Print Assumptions C18_stale_routing_cache_refuted.
+
+(* ---- transactions are receivers: nothing queued is lost ---- *)
+
+(* With packets of its function queued, makeTransaction returns the OLDEST one; the others stay queued in order, followed
+   by what arrives during the call.  Together with C18_cpx_transaction / C18_cpx_transaction_other_traffic (empty queue) and
+   C18_router_per_function_fifo this is "every packet that arrived for f is handed out exactly once, in arrival order, to
+   f's receivers" across histories that mix receivePacket and makeTransaction. *)
+Theorem C18_cpx_transaction_takes_head : forall takes s st p k x q, wf_cpx p -> st (c_fn p) = Some (x :: q) ->
+  exists c' l, c_step takes (mk_cs s st true) (CTransact p k) = (c', [OTrans (Ok (frame p)) (Some x)]) /\
+    cs_rt c' (c_fn p) = Some (q ++ l).
+Proof. exact c_transact_takes_head. Qed.
+Print Assumptions C18_cpx_transaction_takes_head.
+
+(* a transaction that first discards what is queued for its function loses a received packet: it is neither returned nor
+   left queued, while the real one returns it *)
+Theorem C18_flushing_transaction_refuted :
+  exists takes c p k x, cs_rt c (c_fn p) = Some [x] /\
+    (forall r, In (OTrans (Ok (frame p)) (Some r)) (snd (c_transact_flush takes c p k)) -> r <> x) /\
+    ~ In x (pending (c_fn p) (cs_rt (fst (c_transact_flush takes c p k)))) /\
+    snd (c_step takes c (CTransact p k)) = [OTrans (Ok (frame p)) (Some x)].
+Proof. exact flushing_transaction_refuted. Qed.
+Print Assumptions C18_flushing_transaction_refuted.
